@@ -319,7 +319,7 @@ def _pin_bytes(n, idx, maxlen):
     witnesses=[{"nl": 1, "n0": 1, "n1": 0, "n2": 0, "vl": 2, "v0": 1, "v1": 2, "v2": 0, "kind": 0},
                {"nl": 2, "n0": 0, "n1": 1, "n2": 0, "vl": 0, "v0": 0, "v1": 0, "v2": 0, "kind": 0}],
     budget={"quick": 90, "thorough": 400},
-    bounds="build_and_validate_headers on one header: name 1..2 bytes, value 0..2 bytes (thorough 3/3) over {':','a',' ',CR,LF,NUL}; name/value given as bytes, str or bytearray",
+    bounds="build_and_validate_headers on one header: name 1..2 bytes, value 0..2 bytes (thorough 3/3) over {':','a',' ',CR,LF,NUL}; name/value given as bytes, str or bytearray; CR/LF/NUL left after stripping must be refused",
     encodes=["hypercorn/utils.py::build_and_validate_headers"],
 )
 def validate_headers_unit(nl: int, n0: int, n1: int, n2: int, vl: int, v0: int, v1: int, v2: int, kind: int) -> bool:
@@ -347,10 +347,202 @@ def validate_headers_unit(nl: int, n0: int, n1: int, n2: int, vl: int, v0: int, 
     except Exception as e:  # noqa: BLE001
         out, err = None, e
     pseudo = name[0] == 0x3A
+    illegal = any(b in bytes(name).strip() or b in bytes(value).strip() for b in (b"\r", b"\n", b"\x00"))
     if kind in (1, 2):
         ok = err is not None
-    elif pseudo:
-        ok = isinstance(err, ValueError)
+    elif pseudo or illegal:
+        ok = isinstance(err, ValueError)  # nothing that could break out of the header field is passed on
     else:
         ok = err is None and len(out) == 1 and isinstance(out[0][0], bytes) and isinstance(out[0][1], bytes) and out[0][0] == bytes(name).strip() and out[0][1] == bytes(value).strip()
     return done(ok, name=name, value=value, kind=kind)
+
+
+# ------------------------------------------------------------------ CR / LF / NUL never reach the wire
+
+_ROUTES = ["http.response.start", "http.response.trailers", "http.response.push headers", "http.response.push path", "http.response.early_hint link",
+           "websocket.accept headers", "websocket.http.response.start"]
+_INJECT = [b"a\r\nx-injected: 1", b"a\nx-injected: 1", b"a\rb", b"a\x00b", b"\r\nclean\r\n", b"plain"]
+
+
+@harness(
+    "C12",
+    dom={"ri": (0, len(_ROUTES) - 1), "bi": (0, len(_INJECT) - 1), "name": "bool", "h2": "bool"},
+    split={"ri": "each"},
+    witnesses=[{"ri": 0, "bi": 0, "name": False, "h2": True}, {"ri": 5, "bi": 1, "name": True, "h2": True}, {"ri": 0, "bi": 5, "name": False, "h2": False}],
+    budget=100,
+    per_path=60,
+    bounds="7 ways for application bytes to become header bytes (response start, trailers, push headers, push path, early-hint link, websocket.accept headers, websocket denial response) x 6 byte strings (CR LF + a second header, bare LF, bare CR, NUL, CR/LF only at the ends, plain) placed in the name or the value x HTTP/1.1 or HTTP/2 (where the route exists)",
+    encodes=["hypercorn/utils.py::build_and_validate_headers", "hypercorn/protocol/http_stream.py::HTTPStream.app_send", "hypercorn/protocol/ws_stream.py::Handshake.accept", "hypercorn/protocol/ws_stream.py::WSStream._send_rejection",
+             "hypercorn/protocol/h2.py::H2Protocol.stream_send", "hypercorn/protocol/h11.py::H11Protocol.stream_send"],
+    stubs=["tier B runtime", "the server's output is decoded by an independent hpack/hyperframe reader (HTTP/2) or searched as raw bytes (HTTP/1.1)"],
+)
+def header_bytes_on_the_wire(ri: int, bi: int, name: bool, h2: bool) -> bool:
+    """
+    pre: DOM(header_bytes_on_the_wire, ri=ri, bi=bi, name=name, h2=h2)
+    post: _
+    """
+    from vf.stubs.b import Conn, GatedApp, make_config
+    from vf.stubs.clients import H2Client, H2FrameObserver, h1_request, ws_h1_handshake
+
+    enter()
+    route = _ROUTES[conc(ri, 0, len(_ROUTES) - 1)]
+    blob = _INJECT[conc(bi, 0, len(_INJECT) - 1)]
+    name = True if name else False
+    h2 = True if h2 else False
+    if not h2 and route in ("http.response.trailers", "http.response.push headers", "http.response.push path", "http.response.early_hint link"):
+        return done(True, skipped="route exists on HTTP/2 only")
+    if name and route in ("http.response.push path", "http.response.early_hint link"):
+        return done(True, skipped="this route has a value only")
+    hdr = (b"x-" + blob, b"v") if name else (b"x-t", blob)
+    ws = route in ("websocket.accept headers", "websocket.http.response.start")
+    if route == "http.response.start":
+        steps = ["recv", ("send", {"type": "http.response.start", "status": 200, "headers": [hdr]}), ("send", {"type": "http.response.body", "body": b"ok", "more_body": False})]
+    elif route == "http.response.trailers":
+        steps = ["recv", ("send", {"type": "http.response.start", "status": 200, "headers": [], "trailers": True}), ("send", {"type": "http.response.body", "body": b"ok", "more_body": False}),
+                 ("send", {"type": "http.response.trailers", "headers": [hdr], "more_trailers": False})]
+    elif route == "http.response.push headers":
+        steps = ["recv", ("send", {"type": "http.response.push", "path": "/pushed", "headers": [hdr]}), ("send", {"type": "http.response.start", "status": 200, "headers": []}),
+                 ("send", {"type": "http.response.body", "body": b"ok", "more_body": False})]
+    elif route == "http.response.push path":
+        steps = ["recv", ("send", {"type": "http.response.push", "path": "/" + blob.decode("latin1"), "headers": []}), ("send", {"type": "http.response.start", "status": 200, "headers": []}),
+                 ("send", {"type": "http.response.body", "body": b"ok", "more_body": False})]
+    elif route == "http.response.early_hint link":
+        steps = ["recv", ("send", {"type": "http.response.early_hint", "links": [blob]}), ("send", {"type": "http.response.start", "status": 200, "headers": []}),
+                 ("send", {"type": "http.response.body", "body": b"ok", "more_body": False})]
+    elif route == "websocket.accept headers":
+        steps = ["recv", ("send", {"type": "websocket.accept", "headers": [hdr]}), ("send", {"type": "websocket.close", "code": 1000})]
+    else:
+        steps = ["recv", ("send", {"type": "websocket.http.response.start", "status": 403, "headers": [hdr]}), ("send", {"type": "websocket.http.response.body", "body": b"no", "more_body": False})]
+    conn = Conn(None, make_config(), alpn="h2" if h2 else "http/1.1")
+    app = GatedApp(conn.ctx, lambda scope, idx: steps if idx == 0 else ["recv", ("send", {"type": "http.response.start", "status": 200, "headers": []}),
+                                                                         ("send", {"type": "http.response.body", "body": b"pushed", "more_body": False})], gated=False)
+    conn.proto.app = app
+    conn.proto.protocol.app = app
+    if h2:
+        c = H2Client(enable_push=True)
+        if ws:
+            c.request(1, b"CONNECT", b"/ws", [(b"sec-websocket-version", b"13")], end_stream=False,
+                      extra_pseudo=[(b":protocol", b"websocket"), (b":scheme", b"http"), (b":authority", b"example.com"), (b":path", b"/ws")])
+        else:
+            c.request(1, b"GET", b"/r", headers=[(b"te", b"trailers")], end_stream=True)
+        conn.feed(c.take())
+        raw = conn.take()
+        o = H2FrameObserver()
+        o.feed(raw)
+        seen = []
+        for st in o.streams.values():
+            for hs in [st.headers or [], st.trailers or []] + list(st.informational):
+                seen += list(hs)
+        seen += getattr(o, "pushed", [])
+    else:
+        conn.feed(ws_h1_handshake() if ws else h1_request("GET", b"/r", [(b"Host", b"example.com")]))
+        raw = conn.out.peek()
+        seen = []
+    bad = (b"\r", b"\n", b"\x00")
+    field = (b"x-" + blob) if name else blob  # what the application supplied for the name or the value
+    illegal = any(b in field.strip() for b in bad)  # must be refused: something illegal is left inside after trimming
+    may_refuse = any(b in field for b in bad)  # CR/LF at the very ends may be trimmed or refused
+    inst = app.instances[0] if app.instances else None
+    why = ""
+    if inst is None:
+        why = "no application instance"
+    elif conn.sched.errors:
+        why = "exception escaped a task: %r" % (conn.sched.errors[0],)
+    elif any(b"\r" in n or b"\n" in n or b"\x00" in n or b"\r" in v or b"\n" in v or b"\x00" in v for n, v in seen):
+        why = f"CR/LF/NUL inside a header on the wire: {[(n, v) for n, v in seen if n.startswith(b'x-') or n in (b'link', b':path')]!r}"
+    elif b"x-injected" in raw:
+        why = "the application's bytes became a header of their own on the wire"
+    elif illegal and not inst.send_errors:
+        why = f"{route} with {blob!r} in the {'name' if name else 'value'} was accepted silently"
+    elif not may_refuse and inst.send_errors:
+        why = f"legal header bytes {blob!r} refused: {inst.send_errors!r}"
+    return done(why == "", route=route, blob=blob, where="name" if name else "value", carrier="h2" if h2 else "h1", why=why)
+
+
+# ------------------------------------------------------------------ messages after completion / after the client has gone, through the real protocols
+
+_LATE = [
+    ("a body chunk", {"type": "http.response.body", "body": b"late", "more_body": False}),
+    ("a second response start", {"type": "http.response.start", "status": 200, "headers": []}),
+    ("trailers", {"type": "http.response.trailers", "headers": [(b"x-t", b"1")], "more_trailers": False}),
+    ("a push", {"type": "http.response.push", "path": "/p", "headers": []}),
+    ("an early hint", {"type": "http.response.early_hint", "links": [b"</s.css>; rel=preload"]}),
+    ("an unknown message type", {"type": "not.a.real.type"}),
+    ("websocket.send on an http scope", {"type": "websocket.send", "text": "x"}),
+]
+
+
+@harness(
+    "C12",
+    dom={"mi": (0, len(_LATE) - 1), "h2": "bool", "when": (0, 1), "flavour": (0, 1)},
+    split={"mi": "each"},
+    witnesses=[{"mi": 0, "h2": False, "when": 0, "flavour": 0}, {"mi": 3, "h2": True, "when": 0, "flavour": 1}, {"mi": 0, "h2": False, "when": 1, "flavour": 0}],
+    budget=100,
+    per_path=60,
+    bounds="7 HTTP messages sent by the application after its response has completed, or (body chunk without a start) after the client has gone, through the real H11Protocol / H2Protocol (the stream alone does not know it has been closed); both _handle flavours",
+    encodes=["hypercorn/protocol/http_stream.py::HTTPStream.app_send", "hypercorn/protocol/h11.py::H11Protocol.stream_send", "hypercorn/protocol/h2.py::H2Protocol.stream_send"],
+    stubs=["tier B runtime"],
+)
+def late_messages_through_protocol(mi: int, h2: bool, when: int, flavour: int) -> bool:
+    """
+    pre: DOM(late_messages_through_protocol, mi=mi, h2=h2, when=when, flavour=flavour)
+    post: _
+    """
+    from vf.stubs.b import Conn, GatedApp, make_config, open_gates
+    from vf.stubs.clients import H2Client, h1_parse, h1_request
+
+    enter()
+    name, msg = _LATE[conc(mi, 0, len(_LATE) - 1)]
+    h2 = True if h2 else False
+    when = conc(when, 0, 1)
+    flavour = "asyncio" if conc(flavour, 0, 1) == 0 else "trio"
+    if when == 0:
+        steps = ["recv", ("send", {"type": "http.response.start", "status": 200, "headers": [(b"content-length", b"2")]}),
+                 ("send", {"type": "http.response.body", "body": b"ok", "more_body": False}), ("send", dict(msg))]
+        late_step = 3
+    else:
+        if name != "a body chunk":
+            return done(True, skipped="after the client has gone only the body-before-start case is specified (sends after closure are otherwise no-ops, C03)")
+        steps = ["recv", "recv_until_disconnect", ("send", dict(msg))]
+        late_step = 2
+    conn = Conn(None, make_config(), alpn="h2" if h2 else "http/1.1", flavour=flavour)
+    app = GatedApp(conn.ctx, lambda scope, idx: steps, gated=False)
+    conn.proto.app = app
+    conn.proto.protocol.app = app
+    if h2:
+        c = H2Client()
+        c.request(1, b"GET", b"/r", end_stream=True)
+        conn.feed(c.take())
+        if when == 1:
+            c.reset(1)
+            conn.feed(c.take())
+        c.feed(conn.take())
+    else:
+        conn.feed(h1_request("GET", b"/r", [(b"Host", b"example.com")]))
+        if when == 1:
+            conn.eof()
+    conn.sched.run()
+    inst = app.instances[0] if app.instances else None
+    why = ""
+    if inst is None:
+        why = "no application instance"
+    elif when == 0:
+        errs = [e for st, e in inst.send_errors if st == late_step]
+        if not errs:
+            why = f"{name} after the response had completed was accepted silently"
+        elif h2:
+            st = c.streams[1]
+            c.feed(conn.take())
+            if st.status != 200 or st.data != b"ok" or st.ended != 1 or c.errors:
+                why = f"the completed response was disturbed: {st!r} {c.errors}"
+        else:
+            resps, err, closed, trailing = h1_parse(conn.out.peek(), [("GET", b"/r")])
+            if err or len(resps) != 1 or not resps[0].complete or trailing:
+                why = f"bytes on the wire beyond the completed response: {resps!r} {err} {trailing[:40]!r}"
+    else:
+        # the client has gone: the message is either refused or dropped, nothing may be written
+        if conn.sched.errors:
+            why = "exception escaped a task: %r" % (conn.sched.errors[0],)
+    if not why and conn.sched.errors:
+        why = "exception escaped a task: %r" % (conn.sched.errors[0],)
+    return done(why == "", message=name, carrier="h2" if h2 else "h1", when=["after completion", "after the client has gone"][when], flavour=flavour, why=why)
